@@ -239,6 +239,12 @@ func zzC14(mode int) {
 	for _, h := range []string{"Access-Control-Request-Method", "Access-Control-Request-Headers", "Origin", "Cookie", "X-Forwarded-For", "Upgrade", "Proxy-Authorization", "X-Api-Key"} {
 		vMapPutIf(req.Header, h, []string{"x"}, vBool("hdr."+h))
 	}
+	// the middleware may be stacked: an outer layer (its own verifier, its own requirements) has already admitted the
+	// request and left its TokenInfo in the context — this layer still decides on its own verifier's word
+	if vBool("outerLayerAdmittedTheRequest") {
+		outer := &TokenInfo{UserID: "outer", Scopes: []string{"sa", "sb", "sc"}, Expiration: vTimeSec(1<<39, 0)}
+		req = req.WithContext(context.WithValue(req.Context(), tokenInfoKey{}, outer))
+	}
 	if !vBool("noHeader") {
 		req.Header.Set("Authorization", hdr)
 	} else {
